@@ -123,6 +123,10 @@ class SimulatedExecutionEnvironment(ExecutionEnvironment):
         for g in problem.goals:
             deterministic_problem.add_goal(g)
 
+        # state invariants are Always trajectory constraints
+        for tc in problem.trajectory_constraints:
+            deterministic_problem.add_trajectory_constraint(tc)
+
         # Copy metrics
         for metric in problem.quality_metrics:
             deterministic_problem.add_quality_metric(metric)
